@@ -210,3 +210,60 @@ func replayStmts(args []string) {
 		out.Infra = append(out.Infra, err.Error())
 	}
 }
+
+// delgrid: DELETE ... LIMIT cases enumerated by MCStmt (Mode=c08d): store traces.
+func init() {
+	replayFamilies["delgrid"] = func(args []string) {
+		c := parseCommon("delgrid", args, nil)
+		out := NewOut(c.out, c.prop)
+		defer out.Close()
+		stores := map[string][]SPair{}
+		idx := 0
+		err := readTLCLines(c.in, func(raw []byte) {
+			var rc rowsCase
+			if err := json.Unmarshal(raw, &rc); err != nil {
+				out.Infra = append(out.Infra, "bad line: "+err.Error())
+				return
+			}
+			if rc.Kind == "store" {
+				stores[rc.Sid] = fixSPairs(rc.Store)
+				return
+			}
+			if rc.Kind != "case" {
+				return
+			}
+			idx++
+			if (idx-1)%c.shards != c.shard {
+				return
+			}
+			rc.Stmt.fix()
+			store, ok := stores[rc.Sid]
+			if !ok {
+				out.Infra = append(out.Infra, "unknown store id "+rc.Sid)
+				return
+			}
+			id := shortHash(raw)
+			if c.only != "" && c.only != id {
+				return
+			}
+			out.Stats.Cases++
+			q := rc.Stmt.Text()
+			out.Stats.distinct(q+"@"+rc.Sid, len(store) > 0)
+			if out.Stats.Cases%199 == 1 {
+				out.Stats.sample(map[string]any{"id": id, "query": q, "store_pairs": len(store)})
+			}
+			for _, bs := range []int{1, 2, 3, 32} {
+				mode := "batch"
+				if bs == 2 {
+					mode = "row"
+				}
+				tr := runStoreCase(fmt.Sprintf("%s#%s%d", id, mode, bs), rc.Stmt, "", store, RunOpts{Mode: mode, BSize: bs, Cache: true})
+				out.Stats.Evaluations++
+				out.Trace("store", tr)
+			}
+		})
+		if err != nil {
+			out.Infra = append(out.Infra, err.Error())
+		}
+	}
+}
